@@ -16,8 +16,12 @@ from concurrent.futures import ThreadPoolExecutor
 
 VERIF = os.path.dirname(os.path.dirname(os.path.abspath(__file__)))
 REPO = os.environ.get("CAPY_REPO", "/repo")
-TARGET = os.path.join(VERIF, "target")
-WORK = os.path.join(VERIF, "work")
+# VERIF_SANDBOX=<dir> (self-test of the machinery only): build output, work dirs, replay and evidence go under <dir> and
+# CAPY_REPO names the tree to build, so that a seeded change can be evaluated in a scratch copy without touching
+# /repo, /verif/evidence or the builds other runs are using. Registered commands never set it.
+OUT = os.environ.get("VERIF_SANDBOX") or VERIF
+TARGET = os.path.join(OUT, "target")
+WORK = os.path.join(OUT, "work")
 CLI = os.path.join(TARGET, "cli", "release", "capy")
 PROBE = os.path.join(TARGET, "harness", "release", "probe")
 RT_OBJ = os.path.join(TARGET, "rt", "vr_rt.o")
@@ -69,11 +73,26 @@ def build_cli():
     return CLI
 
 
+def probe_src(refresh=True):
+    """the probe crate; in a sandboxed self-test a copy whose path dependencies point at CAPY_REPO"""
+    src = os.path.join(VERIF, "harness", "probe")
+    if OUT == VERIF and REPO == "/repo":
+        return src
+    dst = os.path.join(OUT, "harness", "probe")
+    if not refresh:
+        return dst
+    shutil.rmtree(dst, ignore_errors=True)
+    shutil.copytree(src, dst)
+    toml = open(os.path.join(dst, "Cargo.toml")).read().replace('"/repo/crates/', '"' + REPO.rstrip("/") + '/crates/')
+    open(os.path.join(dst, "Cargo.toml"), "w").write(toml)
+    return dst
+
+
 def build_probe(full=True):
     """probe = harness binary linked against /repo/crates/* with --cfg capy_verif"""
     lk = _lock("probe")
     try:
-        src = os.path.join(VERIF, "harness", "probe")
+        src = probe_src()
         shutil.copyfile(os.path.join(REPO, "Cargo.lock"), os.path.join(src, "Cargo.lock"))
         env = dict(ENV_BASE)
         env["CARGO_TARGET_DIR"] = os.path.join(TARGET, "harness")
@@ -328,7 +347,7 @@ def build_corpus_small(limit=400):
 
 def miri_cmd(args):
     """the probe's front-end part (lexer, parser, ast, line_index, topo: no cranelift) interpreted by Miri, hooks on"""
-    src = os.path.join(VERIF, "harness", "probe")
+    src = probe_src(refresh=False)
     env = dict(ENV_BASE)
     env["CARGO_TARGET_DIR"] = MIRI_TARGET
     env["RUSTFLAGS"] = "--cfg capy_verif"
@@ -341,7 +360,7 @@ def build_probe_miri():
     """compiles the probe for Miri (first time ~1 min) by interpreting a trivial run"""
     lk = _lock("miri")
     try:
-        src = os.path.join(VERIF, "harness", "probe")
+        src = probe_src()
         shutil.copyfile(os.path.join(REPO, "Cargo.lock"), os.path.join(src, "Cargo.lock"))
         cmd, cwd, env = miri_cmd(["c25", "--maxlen", "1", "--random", "1", "--files", "0"])
         t0 = time.time()
@@ -387,7 +406,7 @@ def run_probe_miri(check, seed, extra=(), shards=16, corpus=False, wall_s=1500, 
             text = r.err if UB_PAT.search(r.err) else r.out
             loc = ""
             for lm in MIRI_LOC.finditer(text):
-                if "/repo/crates/" in lm.group(1):
+                if "/crates/" in lm.group(1) and "/.cargo/" not in lm.group(1):
                     loc = lm.group(1)[lm.group(1).index("crates/"):] + ":" + lm.group(2)
                     break
             msg = re.sub(r"0x[0-9a-f]+|alloc\d+|\d+", "N", m.group(1))[:160]
@@ -468,7 +487,7 @@ def match_known(prop, v, known):
 def write_replay(prop, v):
     blob = json.dumps(v, sort_keys=True, ensure_ascii=False)
     h = hashlib.sha1(blob.encode()).hexdigest()[:12]
-    d = os.path.join(VERIF, "replay", prop, h)
+    d = os.path.join(OUT, "replay", prop, h)
     os.makedirs(d, exist_ok=True)
     with open(os.path.join(d, "witness.json"), "w", encoding="utf-8") as fh:
         json.dump(v, fh, indent=1, ensure_ascii=False)
@@ -536,8 +555,8 @@ def finish(prop, tier, seed, t0, level, report, assumptions, rule, min_evals=1, 
         "wall_s": round(time.time() - t0, 2),
         "violations": len(real),
     }
-    os.makedirs(os.path.join(VERIF, "evidence"), exist_ok=True)
-    with open(os.path.join(VERIF, "evidence", f"{prop}.json"), "w", encoding="utf-8") as fh:
+    os.makedirs(os.path.join(OUT, "evidence"), exist_ok=True)
+    with open(os.path.join(OUT, "evidence", f"{prop}.json"), "w", encoding="utf-8") as fh:
         json.dump(ev, fh, indent=1, ensure_ascii=False)
     clean_work(prop)
     if real:
